@@ -45,6 +45,12 @@ fn class_of_failure(s: &str) -> &'static str {
     let cleaned_ok = real_enc(&cleaned).and_then(|b| real_dec(&b)).as_deref() == Some(cleaned.as_str());
     if !cleaned_ok || cleaned.len() == s.len() { return "other"; }
     if cs.iter().any(is_ni) { return "codec-not-inverting"; }
+    // the recorded finding needs the trail byte 0x5E to stand directly in front of a marker *letter*: a character of that
+    // kind followed by one of L G C E T B J H S K 8 in the text. Followed by anything else (another character of its own
+    // codepage, a character that makes the encoder insert a marker — whose first byte is a caret, not a letter) the
+    // unchanged decoder is right, and a failure is something new
+    let before_letter = cs.windows(2).any(|w| is_t5(&w[0]) && "LGCETBJHSK8".contains(w[1]));
+    if !before_letter { return "other"; }
     "trail-byte-5e"
 }
 
